@@ -417,6 +417,24 @@ class CInterp(Interp):
             self.crashes.append('%s:%d' % (self.unit.name, n.line))
         return Interp.deref_target(self, b, n)
 
+    _defs = {}
+
+    def find_def(self, name):
+        k = (id(self.prog), self.unit.name, name)
+        if k not in CInterp._defs:
+            CInterp._defs[k] = Interp.find_def(self, name)
+        return CInterp._defs[k]
+
+    def e_CallExpr(self, n, env):
+        # the runs of this module are concrete: a call whose effect is unknown (external function without a
+        # model) would silently produce an arbitrary result, so refuse it -> "cannot tell", never a verdict
+        name = n.callee()
+        if name is not None and name not in self.cut and name not in self.models and name not in self.noreturn \
+                and name not in self.opaque_fns and name not in ('free', '__builtin_expect'):
+            if self.find_def(name)[1] is None:
+                raise Unsupported('call to %s, which is neither defined in the repository nor modelled (%s:%d)' % (name, self.unit.name, n.line))
+        return Interp.e_CallExpr(self, n, env)
+
     def binop(self, op, a, b, n):
         # a comparison of an opaque integer is signed or unsigned according to the C type the operands
         # were converted to; keep that in the term so that the decision can be evaluated later
